@@ -22,6 +22,12 @@ type (
 	Locker    = sync.Locker
 )
 
+// pass-through of the remaining names of package sync
+func OnceFunc(f func()) func()                                 { return sync.OnceFunc(f) }
+func OnceValue[T any](f func() T) func() T                     { return sync.OnceValue(f) }
+func OnceValues[T1, T2 any](f func() (T1, T2)) func() (T1, T2) { return sync.OnceValues(f) }
+func NewCond(l sync.Locker) *sync.Cond                         { return sync.NewCond(l) }
+
 // Passive turns the shim into the plain primitives (no yields, no log): single-task engines that
 // place the clock exactly on a time bound must not have simulated time pass inside the call under
 // test.  Set before any task starts.
